@@ -23,6 +23,7 @@ type c04Val struct {
 	src  string    // Evy expression
 	decl string    // declarations needed before the expression
 	name string
+	guard string // var-elem: statement that opens the block in which src is used (default "if false")
 }
 
 func c04Types(depth int) []*gen.Type {
@@ -179,6 +180,12 @@ func c04Values(types []*gen.Type) []c04Val {
 		out = append(out, c04Val{kind: "var-elem", t: t, src: "na" + name + "[0]", decl: "na" + name + ":[]" + t.String() + "\n"})
 		out = append(out, c04Val{kind: "var-elem", t: t, src: "nm" + name + ".k", decl: "nm" + name + ":{}" + t.String() + "\n"})
 		out = append(out, c04Val{kind: "var-elem", t: gen.ArrOf(t), src: "nn" + name + "[:]", decl: "nn" + name + ":[]" + t.String() + "\n"})
+		// loop variable over a nested composite variable and over an array literal: a variable of type t
+		out = append(out, c04Val{kind: "var-elem", t: t, src: "lq" + name, decl: "nl" + name + ":[]" + t.String() + "\n", guard: "for lq" + name + " := range nl" + name})
+		if lit := constLit(t, 0); lit != "" {
+			out = append(out, c04Val{kind: "var-elem", t: t, src: "lc" + name, guard: "for lc" + name + " := range [" + lit + " " + constLit(t, 1) + "]"})
+			out = append(out, c04Val{kind: "var-elem", t: t, src: "lc" + name, guard: "for lc" + name + " := range [" + lit + "]*2"})
+		}
 		// function result of type t: like a variable
 		out = append(out, c04Val{kind: "expr-call", t: t, src: "(f" + name + ")", decl: "func f" + name + ":" + t.String() + "\n    r:" + t.String() + "\n    return r\nend\n"})
 		// literal containing a variable of type t
@@ -376,19 +383,26 @@ func c04Run(c *core.Ctx, i int) {
 			if v.kind == "var-elem" {
 				// the containers are empty at run time: only acceptance is judged, the use is guarded
 				ts := t.String()
+				g := v.guard
+				if g == "" {
+					g = "if false"
+				}
 				switch ctx {
 				case "assign":
-					src = v.decl + "x:" + ts + "\nif false\n    x = " + v.src + "\nend\nprint (typeof x)\n"
+					src = v.decl + "x:" + ts + "\n" + g + "\n    x = " + v.src + "\nend\nprint (typeof x)\n"
 				case "param":
-					src = v.decl + "func fn p:" + ts + "\n    print (typeof p)\nend\nif false\n    fn " + v.src + "\nend\n"
+					src = v.decl + "func fn p:" + ts + "\n    print (typeof p)\nend\n" + g + "\n    fn " + v.src + "\nend\n"
 				case "variadic":
-					src = v.decl + "func fn p:" + ts + "...\n    print (len p)\nend\nif false\n    fn " + v.src + " " + v.src + "\nend\n"
+					src = v.decl + "func fn p:" + ts + "...\n    print (len p)\nend\n" + g + "\n    fn " + v.src + " " + v.src + "\nend\n"
 				case "return":
 					src = v.decl + "func fn:" + ts + "\n    return " + v.src + "\nend\nif false\n    x := (fn)\n    print (typeof x)\nend\n"
+					if v.guard != "" {
+						src = v.decl + "func fn:" + ts + "\n    " + g + "\n        return " + v.src + "\n    end\n    r:" + ts + "\n    return r\nend\nif false\n    x := (fn)\n    print (typeof x)\nend\n"
+					}
 				case "element":
-					src = v.decl + "arr:[]" + ts + "\nif false\n    arr[0] = " + v.src + "\nend\nprint (typeof arr)\n"
+					src = v.decl + "arr:[]" + ts + "\n" + g + "\n    arr[0] = " + v.src + "\nend\nprint (typeof arr)\n"
 				case "field":
-					src = v.decl + "m:{}" + ts + "\nif false\n    m.k = " + v.src + "\nend\nprint (typeof m)\n"
+					src = v.decl + "m:{}" + ts + "\n" + g + "\n    m.k = " + v.src + "\nend\nprint (typeof m)\n"
 				case "inferred":
 					continue
 				}
